@@ -690,6 +690,21 @@ func enumC17(env *engine.Env, yield func(any) bool) {
 			}
 		}
 	}
+	// contents lists holding an empty (null) item next to valid ones: whatever the parser makes of them, the schema
+	// agrees (a null item of a list of strings is read as absent - the YAML library's leniency, not judged)
+	for i, d := range []map[string]any{
+		{"contents": []any{map[string]any{"src": "/T/etc/app.conf", "dst": "/etc/app.conf"}, nil}},
+		{"contents": []any{nil, map[string]any{"dst": "/var/lib/x", "type": "dir"}}},
+		{"overrides": map[string]any{"rpm": map[string]any{"contents": []any{map[string]any{"dst": "/var/lib/x", "type": "dir"}, nil}}}},
+	} {
+		doc := c17Base()
+		for k, v := range d {
+			doc[k] = v
+		}
+		if !yield(C17Case{Part: "config", Doc: doc, Value: fmt.Sprintf("null-item:%d", i)}) {
+			return
+		}
+	}
 	metas := []model.MetaCfg{}
 	m := baseMeta()
 	m.Rel = map[string][]model.RelItem{}
